@@ -85,6 +85,7 @@ FAMILIES = {
     "dispatch": {"module": "Dispatch", "judge": "DispatchTrace"},
     "pipeline": {"module": "MC_PipelineHist", "judge": "PipelineTrace", "by_history": True},
     "genfile": {"module": "GenFile", "judge": "GenFileTrace"},
+    "valuelit": {"module": "ValueLit", "judge": "ValueLitTrace"},
     "typelit": {"module": "TypeLit", "judge": "TypeLitTrace"},
     "tracker": {"module": "MC_ImportTracker", "judge": "ImportTrackerTrace"},
     "comments": {"module": "Comments", "judge": "CommentsTrace"},
@@ -454,6 +455,31 @@ def check_C09(ctx):
     ], fails)
 
 
+def check_C10(ctx):
+    res = run_family(ctx, "valuelit", "ValueLit", ["ValueLit_gen.cfg"], "ValueLitTrace", shard=6000)
+    fails = vlib.collect_failures(res["trace"], res["bad"], "valuelit", only_prefix="C10")
+    tr = res["trace"]
+    cov = {
+        "traces_validated_against_impl": len(tr),
+        "evaluations": len(tr),
+        "distinct_nontrivial": _distinct(tr, lambda r: r["case"]["shape"] != "leaf", key=lambda r: json.dumps(r["case"], sort_keys=True)),
+        "rule": "ValueLit.tla enumerates (shape, leaf) for 32 container shapes (scalars, slices, arrays, maps with string / named / non-string keys, nested slices and maps, single-level "
+                "pointers to scalars, named scalars, structs and zero-valued structs, generic struct instantiations, struct values with pointer / nested / map / slice fields, zero values, "
+                "nil and empty containers, a type of another package) x every edge class of 16 leaf types (extreme integers, printable / non-printable / negative runes, float32 / float64 "
+                "zero, -0, smallest subnormal, max, 0.1, 1/3, 1e300, strings with quotes, control characters, backquotes, non-UTF-8 bytes, long text, named versions). Each value is "
+                "built with reflect, rendered with snippet.Value three times, type-checked on its own by go/types with exactly the registered imports (alone, and against the value's "
+                "type), and all well-typed literals are compiled into one program that prints a canonical form compared with the original's. Non-trivial = composite shapes.",
+        "exhaustive": True,
+        "compiled_and_evaluated": sum(1 for r in tr if r["obs"]["ran"]),
+        "samples": [{"case": r["case"], "text": r["obs"]["text"][:200], "type": r["obs"]["go_type"]} for r in tr[:: max(1, len(tr) // 4)][:4]],
+    }
+    return vlib.finish(ctx, "exploration", cov, [
+        "go/types and the Go compiler decide compilation and typing; a compiled program decides evaluation (canonical form: nil = empty containers, pointers followed, floats bit-exact)",
+        "lenient typing: an untyped constant that is representable in the value's type counts as having it",
+        "single-level pointers, finite floats, exported fields only (the statement's domain)",
+    ], fails)
+
+
 def check_C11(ctx):
     t = ctx.tier
     res = run_family(ctx, "typelit", "TypeLit", ["TypeLit_gen_%s.cfg" % t], "TypeLitTrace", shard=6000)
@@ -562,6 +588,7 @@ CHECKS = {
     "C07": check_C07,
     "C08": check_C08,
     "C09": check_C09,
+    "C10": check_C10,
     "C11": check_C11,
     "C12": check_C12,
     "C13": check_C13,
